@@ -142,6 +142,17 @@ func runC15(c *core.Ctx) {
 			no.MaxLen, no.MinLen = 45, 1 // many names longer than the columns
 		}
 		w := newWorld(r, worldOpts{Exact: true, Names: no, MinDays: 1})
+		if i%4 == 1 {
+			// two different names that middle-truncation maps to the same label (same length,
+			// same first and last 14 runes), logged on the same day
+			pre := gen.Name(r, gen.NameOpts{MinLen: 14, MaxLen: 14})
+			suf := gen.Name(r, gen.NameOpts{MinLen: 14, MaxLen: 14})
+			n1, n2 := pre+"/lettuce/"+suf, pre+"/cheddar/"+suf
+			d := r.Intn(len(w.Log))
+			w.Log[d].Ents = append(w.Log[d].Ents, gen.Ent{Name: n1, Val: gen.Half(3)}, gen.Ent{Name: n2, Val: gen.Half(4)})
+			w.LogText = gen.RenderLog(w.Log, w.Layout, nil)
+			c.Count("inputs_with_colliding_shortened_names", 1)
+		}
 		files := w.Files()
 		srv.Write(files)
 		runArgs := func(args ...string) run.Result {
